@@ -10,17 +10,25 @@ Decided:
   R11.b  add() is atomic: every call that can fail at bind time (cast_to_route_factory, bind, bind_all)
          strictly precedes the first mutation of self.routes on every path; after the first insertion only
          insertions and index arithmetic follow;
-  R11.c  contiguous insertion at a running index (= R06.a);
+  R11.c  who may write a routing table (= R06.a; private helpers a permitted writer was split into count as that
+         writer), and the requested index is honoured: the first new route goes to ``index`` when one was given (0
+         included) and to len(self.routes) otherwise, whichever way the position is carried;
   R11.d  process-wide state inventory: every write to a module-level object anywhere in the package is in
          the frozen table (request-id counter advanced in _dispatch_wsgi; converter tables written by
          _register_converter, called at import only; ERROR_CODE_MAP/__all__ by _module_init, import only;
          linecache.cache in compile_code keyed by content hash).
 Declined: behavioural equality of responses before/after (needs running); state inside third-party objects.
+
+Values are judged where they flow (``effects.Flow``: reaching definitions, path conditions), not by the name of the local
+that carries them: "self.resources is a copy" looks at every value that can reach the attribute, "writes only fresh
+objects" at the definitions reaching the write, and helpers a function was split into are followed (inlined by the
+front-end, or accepted as part of the function when nothing else refers to them).
 """
 import ast
 
 from ..core import AnalysisError, norm, short
 from .. import effects
+from ..effects import Flow, slot_key
 from .common import (cfg_of, fkey, conds, has_cond, stmts_of, walk_body, call_tail, call_name, returns_of, stmt_of)
 from .c06 import routes_writers
 
@@ -40,8 +48,86 @@ COPY_CALLS = {'dict', 'list', 'tuple', 'set', 'frozenset', 'sorted', 'copy', 'de
 ALIASED_MUTABLE_ATTRS = {'methods', 'bound_apps', 'resources', 'middlewares', 'converters', 'path_args', 'endpoint_args'}
 
 
+def fresh_container(fl, fi, leaf, repo=None, _depth=0):
+    """The value is a container allocated here: constructor / copy call, display, comprehension, concatenation, or the
+    fresh result of an analysed helper.  A value handed out by an analysed helper that could not be followed is an
+    analysis gap, not a judgement."""
+    v = leaf.value
+    if leaf.opaque and isinstance(leaf.stmt, ast.AugAssign) and slot_key(leaf.stmt.target) is not None and _depth < 3:
+        # x += more: in place on whatever x held before -- still this activation's object if that was
+        before = fl.leaves(leaf.stmt.target, leaf.stmt)
+        return bool(before) and all(b.stmt is not leaf.stmt and fresh_container(fl, fi, b, repo, _depth + 1) for b in before)
+    if leaf.opaque or (isinstance(v, ast.Call) and repo is not None and effects.callee_of(repo, fi, v) is not None):
+        call = v if isinstance(v, ast.Call) else None
+        callee = effects.callee_of(repo, fi, call) if (call is not None and repo is not None) else None
+        if callee is not None:
+            if not leaf.opaque and effects.returns_fresh(repo, callee):
+                return True
+            raise AnalysisError('%s: value computed by %s could not be followed' % (fi.qualname, callee.qualname))
+        return False
+    if isinstance(v, ast.Call) and (call_name(v) in COPY_CALLS or (call_tail(v) in ('copy', 'deepcopy') and not v.args or
+                                                                  call_name(v) in ('copy.copy', 'copy.deepcopy'))):
+        return True
+    return isinstance(v, (ast.BinOp, ast.Dict, ast.List, ast.Set, ast.ListComp, ast.DictComp, ast.SetComp))
+
+
+class HelperClosure(object):
+    """``closure(roots)``: the root functions plus the private functions / methods of the package that are referred to
+    (by name: call, attribute load, string) only from inside functions already in the set -- the helpers a function was
+    split into.  A helper nothing refers to any more (the front-end dissolved its calls into the callers) is dead code
+    and counts as part of whatever root is asked about."""
+
+    def __init__(self, repo):
+        self.repo = repo
+        self.refs = {}
+        self.funcs = []
+        for m in repo.all_internal_modules():
+            self.funcs.extend(m.functions.values())
+            for n in ast.walk(m.tree):
+                name = None
+                if isinstance(n, ast.Name) and isinstance(n.ctx, ast.Load):
+                    name = n.id
+                elif isinstance(n, ast.Attribute) and isinstance(n.ctx, ast.Load):
+                    name = n.attr
+                elif isinstance(n, ast.Constant) and isinstance(n.value, str) and n.value.isidentifier():
+                    name = n.value
+                if name is None or not name.startswith('_') or name.startswith('__'):
+                    continue
+                keys = []
+                cur = m.enclosing_function(n)
+                while cur is not None:
+                    f2 = m.func_of_node(cur)
+                    if f2 is not None:
+                        keys.append(f2.key)
+                    cur = m.enclosing_function(cur)
+                self.refs.setdefault(name, []).append(keys or ['%s::<module>' % m.name])
+
+    def closure(self, roots, same_module=True):
+        acc = set(roots)
+        mods = set(k.split('::')[0] for k in roots)
+        changed = True
+        while changed:
+            changed = False
+            for fi in self.funcs:
+                if fi.key in acc or not fi.name.startswith('_') or fi.name.startswith('__'):
+                    continue
+                if same_module and fi.mod.name not in mods:
+                    continue
+                if all(any(k in acc for k in keys) for keys in self.refs.get(fi.name, [])):
+                    acc.add(fi.key)
+                    changed = True
+        return acc
+
+    def referred_from(self, fi, key):
+        return any(key in keys for keys in self.refs.get(fi.name, []))
+
+
 def run(rep):
+    from .c10 import _safe
     repo = rep.repo
+    _guard = rep.guard
+    rep_guard = lambda fn, *a, **k: _guard(_safe(fn), *a, **k)
+    hc = HelperClosure(repo)
     app, route, core, sinter = repo.mod(APP), repo.mod(ROUTE), repo.mod(CORE), repo.mod(SINTER)
     rep.decide('R11.a binding writes only the new object / copies containers; R11.b add() binds before it mutates; '
                'R11.c running index; R11.d module-level state inventory')
@@ -52,258 +138,437 @@ def run(rep):
     rep.rule('R11.d', 'every writer of module-level state is in the frozen inventory')
 
     # ---- R11.a -----------------------------------------------------------
-    def readonly_params(fi, ro, label):
-        fresh = effects.fresh_locals(repo, fi)
-        # aliases of read-only parameters: x = getattr(param, ...), x = param.attr, x = param
-        alias = set(ro)
-        for s in stmts_of(fi.node):
-            if isinstance(s, ast.Assign) and len(s.targets) == 1 and isinstance(s.targets[0], ast.Name):
-                v = s.value
-                base = v
-                if isinstance(v, ast.Call) and call_name(v) == 'getattr' and v.args:
-                    base = v.args[0]
-                while isinstance(base, (ast.Attribute, ast.Subscript)):
-                    base = base.value
-                if isinstance(base, ast.Name) and base.id in alias and not (isinstance(v, ast.Call) and call_name(v) in COPY_CALLS):
-                    alias.add(s.targets[0].id)
-            if isinstance(s, ast.Assign):
-                for t in s.targets:
-                    if isinstance(t, ast.Tuple):
-                        for e in t.elts:
-                            if isinstance(e, ast.Name) and isinstance(s.value, ast.Attribute) is False:
-                                pass
-        n = 0
-        for e in effects.effects_in(fi.node):
-            n += 1
-            root = e.root
-            ok = root == 'self' or (root in fresh and root not in alias) or root in ('kwargs', 'kw')
-            if root in alias:
-                ok = False
-            rep.check('R11.a', fkey(fi, e.node), ok, 'writes %s (own / fresh object)' % root if ok else
-                      '%s writes through %s, which is (an alias of) a %s being bound: binding must not modify the original' % (fi.qualname, root, label),
-                      fi.mod, e.node)
-        return n
-    bi = route.func('BoundRoute.__init__')
-    n1 = readonly_params(bi, set(bi.params()[1:3]), 'route/application')
-    ri = route.func('Route.__init__')
-    n2 = readonly_params(ri, set(), 'caller argument')
-    ba = app.func('SubApplication.bind_all')
-    n3 = readonly_params(ba, {ba.params()[1]}, 'application')
-    for e in effects.effects_in(ba.node):
-        if e.chain and e.chain[:2] == ['self', 'app']:
-            rep.fail('R11.a', fkey(ba, e.node), 'bind_all writes the embedded application (self.app...)', app, e.node)
-    mm = core.func('merge_middlewares')
-    n4 = readonly_params(mm, set(), 'caller list')
-    # merge_middlewares: its parameters are re-bound to copies before anything is mutated
-    rets = returns_of(mm)
-    mvar = norm(rets[0].value) if rets else None
-    for e in effects.effects_in(mm.node):
-        ok = e.root == mvar
-        rep.check('R11.a', fkey(mm, 'mutates only merged'), ok, 'only the freshly built merged list is mutated' if ok else
-                  'merge_middlewares mutates %s (a caller-supplied list)' % e.root, core, e.node)
-    crf = app.func('cast_to_route_factory')
-    effs = effects.effects_in(crf.node)
-    rep.check('R11.a', fkey(crf), not effs, 'cast_to_route_factory has no heap effect' if not effs else
-              'cast_to_route_factory writes %s' % [short(e.node) for e in effs], app, crf.node)
-    # containers kept by the bound route are copies
-    kept = {}
-    for s in stmts_of(bi.node):
-        if isinstance(s, ast.Assign) and isinstance(s.targets[0], ast.Attribute) and norm(s.targets[0].value) == 'self':
-            kept[s.targets[0].attr] = s
-    # attributes that stay aliases of the original's objects must not be mutated here
-    ro = set(bi.params()[1:3]) | {'unbound_route'}
-    for attr, s in sorted(kept.items()):
-        v = s.value
-        base = v
-        while isinstance(base, (ast.Attribute, ast.Subscript)):
-            base = base.value
-        if isinstance(v, (ast.Attribute,)) and isinstance(base, ast.Name) and base.id in ro:
-            muts = [e for e in effects.effects_in(bi.node) if (e.chain or [])[:2] == ['self', attr] and
-                    (e.kind == 'mutcall' or len(e.chain) > 2)]
-            rep.check('R11.a', fkey(bi, 'alias self.%s' % attr), not muts,
-                      'self.%s aliases %s and is not mutated while binding' % (attr, norm(v)) if not muts else
-                      'self.%s is an alias of %s and is mutated during binding (%s): the original route/application changes' %
-                      (attr, norm(v), [short(e.node) for e in muts]), route, muts[0].node if muts else s)
-    for attr in ('resources', 'middlewares', 'bound_apps'):
-        s = kept.get(attr)
-        v = s.value if s else None
-        ok = s is not None and ((isinstance(v, ast.Call) and call_name(v) in COPY_CALLS) or isinstance(v, ast.BinOp))
-        rep.check('R11.a', fkey(bi, 'self.%s is a copy' % attr), ok, 'self.%s = %s (fresh container)' % (attr, short(v, 50)) if ok else
-                  'self.%s aliases a container of the route/application being bound: %s' % (attr, short(v)), route, s or bi.node)
-    for mod_, q, attr in ((route, 'Route.__init__', 'middlewares'), (route, 'Route.__init__', 'resources')):
-        fi = mod_.func(q)
-        s = [x for x in stmts_of(fi.node) if isinstance(x, ast.Assign) and norm(x.targets[0]) == 'self.%s' % attr]
-        ok = len(s) == 1 and isinstance(s[0].value, ast.Call) and call_name(s[0].value) in COPY_CALLS
-        rep.check('R11.a', fkey(fi, 'self.%s is a copy' % attr), ok, 'Route copies the caller\'s %s' % attr if ok else
-                  'Route keeps the caller\'s %s container by reference' % attr, mod_, s[0] if s else fi.node)
-    ai = app.func('Application.__init__')
-    for attr in ('resources', 'middlewares'):
-        s = [x for x in stmts_of(ai.node) if isinstance(x, ast.Assign) and norm(x.targets[0]) == 'self.%s' % attr]
-        ok = len(s) == 1 and isinstance(s[0].value, ast.Call) and call_name(s[0].value) in COPY_CALLS
-        rep.check('R11.a', fkey(ai, 'self.%s is a copy' % attr), ok, 'Application copies the caller\'s %s' % attr if ok else
-                  'Application keeps the caller\'s %s by reference' % attr, app, s[0] if s else ai.node)
-    # aliased mutable attributes are never mutated after construction
-    allowed_mut = {('clastic.route', 'Route.__init__'), ('clastic.route', 'BoundRoute.__init__'),
-                   ('clastic.application', 'Application.__init__')}
-    for m in repo.all_internal_modules():
-        if m.name.startswith('clastic.middleware') and m.name != CORE or m.name.startswith('clastic.contrib'):
-            continue
-        for fi in m.functions.values():
+    def r11a():
+        def readonly_params(fi, ro, label):
+            fresh = effects.fresh_locals(repo, fi)
+            # aliases of read-only parameters: x = getattr(param, ...), x = param.attr, x = param
+            alias = set(ro)
+            for s in stmts_of(fi.node):
+                if isinstance(s, ast.Assign) and len(s.targets) == 1 and isinstance(s.targets[0], ast.Name):
+                    v = s.value
+                    base = v
+                    if isinstance(v, ast.Call) and call_name(v) == 'getattr' and v.args:
+                        base = v.args[0]
+                    while isinstance(base, (ast.Attribute, ast.Subscript)):
+                        base = base.value
+                    if isinstance(base, ast.Name) and base.id in alias and not (isinstance(v, ast.Call) and call_name(v) in COPY_CALLS):
+                        alias.add(s.targets[0].id)
+            n = 0
+            fl_ = Flow(fi)
             for e in effects.effects_in(fi.node):
-                ch = e.chain or []
-                hit = [a for a in ALIASED_MUTABLE_ATTRS if a in ch[1:]]
-                if not hit or (e.kind == 'store' and ch[-1] in hit and len(ch) == 2 and ch[0] == 'self' and fi.name == '__init__'):
-                    continue
-                if ch[0] in effects.fresh_locals(repo, fi):
-                    continue
-                ok = (m.name, fi.qualname) in allowed_mut and ch[0] == 'self'
-                rep.check('R11.a', 'mutation::%s::%s' % (fi.key, norm(e.node)[:70]), ok,
-                          'constructor-time mutation of the object\'s own container' if ok else
-                          '%s mutates .%s of an existing route/application object (shared with everything it was bound into)' % (fi.key, hit[0]),
-                          m, e.node)
-    rep.floor('R11.a', 25)
+                n += 1
+                root = e.root
+                ok = root == 'self' or (root in fresh and root not in alias) or root in ('kwargs', 'kw')
+                if not ok and root is not None and root not in alias and root != 'self':
+                    # flow-sensitive: at this statement the local can only hold an object built here
+                    ok = effects.fresh_at(repo, fi, fl_, root, stmt_of(fi.mod, e.node))
+                if root in alias:
+                    ok = False
+                rep.check('R11.a', fkey(fi, e.node), ok, 'writes %s (own / fresh object)' % root if ok else
+                          '%s writes through %s, which is (an alias of) a %s being bound: binding must not modify the original' % (fi.qualname, root, label),
+                          fi.mod, e.node)
+            return n
+        bi = route.func('BoundRoute.__init__')
+        n1 = readonly_params(bi, set(bi.params()[1:3]), 'route/application')
+        ri = route.func('Route.__init__')
+        n2 = readonly_params(ri, set(), 'caller argument')
+        ba = app.func('SubApplication.bind_all')
+        n3 = readonly_params(ba, {ba.params()[1]}, 'application')
+        for e in effects.effects_in(ba.node):
+            if e.chain and e.chain[:2] == ['self', 'app']:
+                rep.fail('R11.a', fkey(ba, e.node), 'bind_all writes the embedded application (self.app...)', app, e.node)
+        mm = core.func('merge_middlewares')
+        n4 = readonly_params(mm, set(), 'caller list')
+        # merge_middlewares: its parameters are re-bound to copies before anything is mutated
+        rets = returns_of(mm)
+        mfresh = effects.fresh_locals(repo, mm) - set(mm.params())
+        returned = set(n.id for r in rets if r.value is not None for n in ast.walk(r.value) if isinstance(n, ast.Name))
+        for e in effects.effects_in(mm.node):
+            ok = e.root in mfresh and e.root in returned
+            rep.check('R11.a', fkey(mm, 'mutates only merged'), ok, 'only the freshly built merged list is mutated' if ok else
+                      'merge_middlewares mutates %s (a caller-supplied list)' % e.root, core, e.node)
+        crf = app.func('cast_to_route_factory')
+        effs = effects.effects_in(crf.node)
+        rep.check('R11.a', fkey(crf), not effs, 'cast_to_route_factory has no heap effect' if not effs else
+                  'cast_to_route_factory writes %s' % [short(e.node) for e in effs], app, crf.node)
+        # containers kept by the bound route are copies: every value that can flow into the attribute (through named
+        # temporaries, either arm of a conditional) is a container allocated here
+        def rooted_in(fl, leaf, names):
+            """the value is (part of) an object reachable from one of ``names``: attribute / item / getattr chain."""
+            v = fl.resolve(leaf.value, leaf.stmt) if isinstance(leaf.stmt, ast.AST) else leaf.value
+            seen_attr = False
+            while True:
+                if isinstance(v, (ast.Attribute, ast.Subscript)):
+                    v, seen_attr = v.value, True
+                elif isinstance(v, ast.Call) and call_name(v) == 'getattr' and v.args:
+                    v, seen_attr = v.args[0], True
+                else:
+                    break
+            return seen_attr and isinstance(v, ast.Name) and v.id in names
+
+        def copies(fi, attr, who, mod_):
+            fl = Flow(fi)
+            lv = fl.leaves(ast.parse('self.%s' % attr, mode='eval').body, 'exit')
+            stores = fl.defs.get('self.%s' % attr, [])
+            if not stores:
+                lv = []
+            ok = bool(lv) and all(fresh_container(fl, fi, l, repo) for l in lv)
+            bad = [l for l in lv if not fresh_container(fl, fi, l, repo)]
+            rep.check('R11.a', fkey(fi, 'self.%s is a copy' % attr), ok, 'self.%s = %s (fresh container)' % (attr, ' | '.join(short(l.value, 50) for l in lv)) if ok else
+                      '%s: self.%s aliases a container of %s: %s' % (fi.qualname, attr, who, [short(l.value) for l in bad] or 'never assigned'), mod_,
+                      (bad[0].stmt if bad and isinstance(bad[0].stmt, ast.AST) else None) or (stores[-1].stmt if stores else fi.node))
+
+        bfl = Flow(bi)
+        ro = set(bi.params()[1:3])
+        # attributes that stay aliases of the original's objects must not be mutated here
+        for slot in sorted(k for k in bfl.defs if k.startswith('self.')):
+            attr = slot[5:]
+            lv = [l for d in bfl.defs[slot] if d.kind == 'assign' and d.idx is None for l in bfl.leaves(d.value, d.stmt)]
+            al = [l for l in lv if not l.opaque and rooted_in(bfl, l, ro)]
+            if not al:
+                continue
+            muts = [e for e in effects.effects_in(bi.node) if (e.chain or [])[:2] == ['self', attr] and
+                    (e.kind == 'mutcall' or len(e.chain) > 2 or isinstance(e.node, ast.AugAssign))]
+            rep.check('R11.a', fkey(bi, 'alias self.%s' % attr), not muts,
+                      'self.%s aliases %s and is not mutated while binding' % (attr, norm(al[0].value)) if not muts else
+                      'self.%s is an alias of %s and is mutated during binding (%s): the original route/application changes' %
+                      (attr, norm(al[0].value), [short(e.node) for e in muts]), route, muts[0].node if muts else al[0].stmt)
+        for attr in ('resources', 'middlewares', 'bound_apps'):
+            copies(bi, attr, 'the route/application being bound', route)
+        for attr in ('middlewares', 'resources'):
+            copies(route.func('Route.__init__'), attr, 'the caller', route)
+        ai = app.func('Application.__init__')
+        for attr in ('resources', 'middlewares'):
+            copies(ai, attr, 'the caller', app)
+        # aliased mutable attributes are never mutated after construction
+        allowed_mut = hc.closure({'clastic.route::Route.__init__', 'clastic.route::BoundRoute.__init__',
+                                  'clastic.application::Application.__init__'})
+        _ch = {}
+
+        def ctor_helpers(ci):
+            # private methods a constructor was split into
+            if ci.key not in _ch:
+                init = ci.methods.get('__init__')
+                _ch[ci.key] = hc.closure({init.key}) if init is not None else set()
+            return _ch[ci.key]
+        for m in repo.all_internal_modules():
+            if m.name.startswith('clastic.middleware') and m.name != CORE or m.name.startswith('clastic.contrib'):
+                continue
+            for fi in m.functions.values():
+                for e in effects.effects_in(fi.node):
+                    ch = e.chain or []
+                    hit = [a for a in ALIASED_MUTABLE_ATTRS if a in ch[1:]]
+                    if not hit or (e.kind == 'store' and ch[-1] in hit and len(ch) == 2 and ch[0] == 'self' and
+                                   (fi.name == '__init__' or (fi.cls is not None and fi.key in ctor_helpers(fi.cls)))):
+                        continue
+                    if ch[0] in effects.fresh_locals(repo, fi):
+                        continue
+                    ok = fi.key in allowed_mut and ch[0] == 'self'
+                    rep.check('R11.a', 'mutation::%s::%s' % (fi.key, norm(e.node)[:70]), ok,
+                              'constructor-time mutation of the object\'s own container' if ok else
+                              '%s mutates .%s of an existing route/application object (shared with everything it was bound into)' % (fi.key, hit[0]),
+                              m, e.node)
+    rep_guard(r11a)
+    rep_guard(rep.floor, 'R11.a', 25)
 
     # ---- R11.b -----------------------------------------------------------
-    ad = app.func('Application.add')
-    cfg = cfg_of(ad)
-    ins = [stmt_of(app, c) for c in walk_body(ad.node) if isinstance(c, ast.Call) and norm(c.func).startswith('self.routes.')
-           and call_tail(c) in effects.MUTATORS]
-    failing = [stmt_of(app, c) for c in walk_body(ad.node) if isinstance(c, ast.Call) and
-               (call_name(c) == 'cast_to_route_factory' or call_tail(c) in ('bind', 'bind_all'))]
-    if not ins or len(failing) < 2:
-        raise AnalysisError('Application.add: insert / bind calls not found')
-    for s in failing:
-        ok = not (set(cfg.nodes_of(s)) & cfg.reach(cfg.nodes_of_all(ins)))
-        rep.check('R11.b', fkey(ad, s), ok, 'runs strictly before the first mutation of self.routes' if ok else
-                  'a call that can fail at bind time (%s) can run after self.routes was already modified: a failing add() leaves '
-                  'a partially updated routing table' % short(s), app, s)
-    # "precedes" must mean *finished*: the bound routes are a materialised list, not a lazy iterator whose
-    # bind() calls run interleaved with the insertions
-    for q in ('SubApplication.bind_all',):
-        bf = app.func(q)
-        lazy = [n for n in walk_body(bf.node) if isinstance(n, (ast.Yield, ast.YieldFrom))]
-        rets_ = returns_of(bf)
-        gens = [r for r in rets_ if isinstance(r.value, (ast.GeneratorExp,)) or
-                (isinstance(r.value, ast.Call) and call_name(r.value) in ('map', 'iter', 'filter', 'zip'))]
-        rep.check('R11.b', fkey(bf, 'returns a finished list'), not lazy and not gens and bool(rets_),
-                  'all re-bound routes exist before bind_all returns (no generator / lazy iterator)' if not lazy and not gens and rets_ else
-                  'bind_all is lazy (generator / iterator): routes are bound one by one while add() is already inserting, so a failing '
-                  'k-th route leaves routes 1..k-1 in the table', app, (lazy or gens or [bf.node])[0])
-    srcs = [s for s in stmts_of(ad.node) if isinstance(s, ast.Assign) and any(isinstance(l, ast.For) and norm(l.iter) == norm(s.targets[0]) and
-                                                                              any(i in l.body for i in ins) for l in stmts_of(ad.node))]
-    ok = bool(srcs) and all((isinstance(s.value, ast.Call) and call_tail(s.value) == 'bind_all') or isinstance(s.value, ast.List) or
-                            (isinstance(s.value, ast.Call) and call_name(s.value) == 'list') for s in srcs)
-    rep.check('R11.b', fkey(ad, 'iterates a finished list'), ok, 'the insertion loop walks an already complete list of bound routes' if ok else
-              'the insertion loop does not iterate a complete list of bound routes', app, srcs[0] if srcs else ad.node)
-    after = cfg.reach(cfg.nodes_of_all(ins), normal_only=True)
-    bad = []
-    for n in after:
-        nd = cfg.nodes[n]
-        if nd.stmt is None or nd.kind in ('iter', 'exhaust', 'head', 'branch'):
-            if nd.kind == 'head' and not isinstance(nd.stmt, ast.For):
-                bad.append(nd)
-            continue
-        st = nd.stmt
-        if st in ins or isinstance(st, ast.Return) or (isinstance(st, ast.AugAssign) and isinstance(st.value, ast.Constant)):
-            continue
-        bad.append(nd)
-    rep.check('R11.b', fkey(ad, 'after first insert'), not bad, 'after the first insertion only insertions and index arithmetic follow' if not bad else
-              'statements that may fail follow the first insertion: %s' % [short(b.stmt) for b in bad if b.stmt is not None], app, ins[0])
-    # constructor: a failing add() inside __init__ propagates (nothing swallows it)
-    ai_loop = [s for s in stmts_of(ai.node) if isinstance(s, ast.For) and any(isinstance(c, ast.Call) and norm(c.func) == 'self.add' for c in ast.walk(s))]
-    from .common import protected_by
-    ok = bool(ai_loop) and all(protected_by(ai, s, 'Exception') is None for s in ai_loop)
-    rep.check('R11.b', fkey(ai, 'bind errors propagate'), ok, 'a bind failure aborts construction (no handler hides it)' if ok else
-              'Application.__init__ swallows errors from add()', app, ai.node)
+    def r11b():
+        ai = app.func('Application.__init__')
+        ad = app.func('Application.add')
+        cfg = cfg_of(ad)
+        afl = Flow(ad)
+        ins = [stmt_of(app, c) for c in walk_body(ad.node) if isinstance(c, ast.Call) and norm(c.func).startswith('self.routes.')
+               and call_tail(c) in effects.MUTATORS]
+
+        def can_fail_at_bind(c):
+            if call_name(c) == 'cast_to_route_factory' or call_tail(c) in ('bind', 'bind_all'):
+                return True
+            t = afl.text(c.func, stmt_of(app, c))      # bind_all = getattr(rf, 'bind_all', None) ... bind_all(self, **kw)
+            return t.endswith('.bind') or t.endswith('.bind_all') or "'bind_all'" in t or "'bind'" in t
+        failing = [stmt_of(app, c) for c in walk_body(ad.node) if isinstance(c, ast.Call) and can_fail_at_bind(c)]
+        if not ins or len(failing) < 2:
+            raise AnalysisError('Application.add: insert / bind calls not found')
+        for s in failing:
+            ok = not (set(cfg.nodes_of(s)) & cfg.reach(cfg.nodes_of_all(ins)))
+            rep.check('R11.b', fkey(ad, s), ok, 'runs strictly before the first mutation of self.routes' if ok else
+                      'a call that can fail at bind time (%s) can run after self.routes was already modified: a failing add() leaves '
+                      'a partially updated routing table' % short(s), app, s)
+        # "precedes" must mean *finished*: the bound routes are a materialised list, not a lazy iterator whose
+        # bind() calls run interleaved with the insertions
+        for q in ('SubApplication.bind_all',):
+            bf = app.func(q)
+            lazy = [n for n in walk_body(bf.node) if isinstance(n, (ast.Yield, ast.YieldFrom))]
+            rets_ = returns_of(bf)
+            gens = [r for r in rets_ if isinstance(r.value, (ast.GeneratorExp,)) or
+                    (isinstance(r.value, ast.Call) and call_name(r.value) in ('map', 'iter', 'filter', 'zip'))]
+            rep.check('R11.b', fkey(bf, 'returns a finished list'), not lazy and not gens and bool(rets_),
+                      'all re-bound routes exist before bind_all returns (no generator / lazy iterator)' if not lazy and not gens and rets_ else
+                      'bind_all is lazy (generator / iterator): routes are bound one by one while add() is already inserting, so a failing '
+                      'k-th route leaves routes 1..k-1 in the table', app, (lazy or gens or [bf.node])[0])
+        # the loop that inserts walks a finished list: every value that can flow into its iterable is the result of
+        # bind_all(...), a list display or list(...) -- possibly paired with positions by enumerate()
+        loops = [l for l in stmts_of(ad.node) if isinstance(l, ast.For) and any(i in stmts_of(l) for i in ins)]
+        srcs = []
+        ok = bool(loops)
+        for l in loops:
+            it = l.iter
+            if isinstance(it, ast.Call) and call_name(it) == 'enumerate' and it.args and not any(k.arg is None for k in it.keywords):
+                it = it.args[0]
+            elif isinstance(it, ast.Call) and call_name(it) == 'zip' and not it.keywords:
+                # zip(count(index), bound_routes): positions paired with the list
+                rest = [a for a in it.args if not (isinstance(a, ast.Call) and call_name(a) in ('itertools.count', 'count', 'range'))]
+                if len(rest) == 1 and len(it.args) == 2:
+                    it = rest[0]
+            for lf in afl.leaves(it, l):
+                v = lf.value
+                srcs.append(lf)
+                fin = not lf.opaque and (isinstance(v, ast.List) or (isinstance(v, ast.Call) and (
+                    call_name(v) == 'list' or afl.text(v.func, lf.stmt if isinstance(lf.stmt, ast.AST) else l).endswith('.bind_all') or
+                    afl.text(v.func, lf.stmt if isinstance(lf.stmt, ast.AST) else l).startswith("getattr(") and
+                    "'bind_all'" in afl.text(v.func, lf.stmt if isinstance(lf.stmt, ast.AST) else l))))
+                ok = ok and fin
+        ok = ok and bool(srcs)
+        rep.check('R11.b', fkey(ad, 'iterates a finished list'), ok, 'the insertion loop walks an already complete list of bound routes' if ok else
+                  'the insertion loop does not iterate a complete list of bound routes: %s' % [short(lf.value, 50) for lf in srcs], app,
+                  (srcs[0].stmt if srcs and isinstance(srcs[0].stmt, ast.AST) else None) or ad.node)
+        after = cfg.reach(cfg.nodes_of_all(ins), normal_only=True)
+        bad = []
+        for n in after:
+            nd = cfg.nodes[n]
+            if nd.stmt is None or nd.kind in ('iter', 'exhaust', 'head', 'branch'):
+                if nd.kind == 'head' and not isinstance(nd.stmt, ast.For):
+                    bad.append(nd)
+                continue
+            st = nd.stmt
+            if st in ins or isinstance(st, ast.Return) or (isinstance(st, ast.AugAssign) and isinstance(st.value, ast.Constant)):
+                continue
+            if isinstance(st, ast.Assign) and len(st.targets) == 1 and isinstance(st.targets[0], ast.Name) and \
+                    all(isinstance(n, (ast.Name, ast.Constant, ast.BinOp, ast.Add, ast.Sub, ast.Load)) for n in ast.walk(st.value)) and \
+                    all(isinstance(n.value, int) for n in ast.walk(st.value) if isinstance(n, ast.Constant)):
+                continue      # position arithmetic on locals (index = index + 1)
+            bad.append(nd)
+        rep.check('R11.b', fkey(ad, 'after first insert'), not bad, 'after the first insertion only insertions and index arithmetic follow' if not bad else
+                  'statements that may fail follow the first insertion: %s' % [short(b.stmt) for b in bad if b.stmt is not None], app, ins[0])
+        # constructor: a failing add() inside __init__ propagates (nothing swallows it)
+        ai_loop = [s for s in stmts_of(ai.node) if isinstance(s, ast.For) and any(isinstance(c, ast.Call) and norm(c.func) == 'self.add' for c in ast.walk(s))]
+        from .common import protected_by
+        ok = bool(ai_loop) and all(protected_by(ai, s, 'Exception') is None for s in ai_loop)
+        rep.check('R11.b', fkey(ai, 'bind errors propagate'), ok, 'a bind failure aborts construction (no handler hides it)' if ok else
+                  'Application.__init__ swallows errors from add()', app, ai.node)
+
+    rep_guard(r11b)
 
     # ---- R11.c -----------------------------------------------------------
-    from .c06 import routes_writer_ok
-    for m, fi, e in routes_writers(repo):
-        ok = routes_writer_ok(m, fi, e)
-        rep.check('R11.c', 'writer::%s::%s' % (fi.key, norm(e.node)[:70]), ok, 'set-up write of a routing table' if ok else
-                  '%s writes a routing table' % fi.key, m, e.node)
-    rep.floor('R11.c', 2)
+    def r11c():
+        from .c06 import routes_writer_ok, ROUTES_WRITERS_ALLOWED
+
+        class _As(object):          # a helper judged as the function it is a part of
+            def __init__(self, qualname):
+                self.qualname = qualname
+
+        class _Store(object):       # ``self.routes, x = [], y``: the element assigned to the routing table
+            def __init__(self, e, value):
+                self.kind, self.method, self.target, self.chain = e.kind, e.method, e.target, e.chain
+                self.node = ast.copy_location(ast.Assign(targets=[e.target], value=value), e.node)
+        for m, fi, e in routes_writers(repo):
+            ok = routes_writer_ok(m, fi, e)
+            if not ok:
+                # the same write, made by a private helper the permitted writer was split into / in a tuple assignment
+                e2 = e
+                if e.kind == 'store' and isinstance(e.node, ast.Assign):
+                    for d in Flow(fi).defs.get(slot_key(e.target) or '', []):
+                        if d.stmt is e.node and d.kind == 'assign' and d.idx is None and d.value is not e.node.value:
+                            e2 = _Store(e, d.value)
+                for (gm, gq) in ROUTES_WRITERS_ALLOWED:
+                    if gm == m.name and fi.key in hc.closure({'%s::%s' % (gm, gq)}):
+                        ok = ok or routes_writer_ok(m, _As(gq), e2)
+            rep.check('R11.c', 'writer::%s::%s' % (fi.key, norm(e.node)[:70]), ok, 'set-up write of a routing table' if ok else
+                      '%s writes a routing table' % fi.key, m, e.node)
+    rep_guard(r11c)
+
+    def requested_index():
+        """The first new route goes to the requested position: the ``index`` argument when one was given (0 included),
+        the end of the table otherwise -- whichever way the position is carried (running local, base + enumerate offset,
+        zip(count(base), ..), enumerate(.., base))."""
+        from .c10 import Prop, Unknown
+
+        def position_of(ad, fl, pr, idx, call, given):
+            st = stmt_of(app, call)
+            loops = [l for l in stmts_of(ad.node) if isinstance(l, ast.For) and st in stmts_of(l)]
+            if len(loops) != 1:
+                raise AnalysisError('Application.add: the insertion is not inside one loop')
+            loop = loops[0]
+            pos = call.args[0]
+            # loop-carried positions: element of enumerate(..) / zip(count(base), ..) targets
+            counter, base = None, None
+            it = loop.iter
+            tg = loop.target.elts if isinstance(loop.target, ast.Tuple) else []
+            if isinstance(it, ast.Call) and call_name(it) == 'enumerate' and tg and isinstance(tg[0], ast.Name):
+                counter = tg[0].id
+                base = it.args[1] if len(it.args) > 1 else next((k.value for k in it.keywords if k.arg == 'start'), None)
+            elif isinstance(it, ast.Call) and call_name(it) == 'zip' and len(it.args) == len(tg):
+                for a, t in zip(it.args, tg):
+                    if isinstance(a, ast.Call) and call_name(a) in ('itertools.count', 'count') and isinstance(t, ast.Name):
+                        counter, base = t.id, (a.args[0] if a.args else ast.Constant(value=0))
+            if counter is not None and isinstance(pos, ast.Name) and pos.id == counter and base is not None:
+                start_expr = base                                       # for pos, br in zip(count(base), ..) / enumerate(.., base)
+            elif counter is not None and base is None and isinstance(pos, ast.BinOp) and isinstance(pos.op, ast.Add) and \
+                    counter in (norm(pos.left), norm(pos.right)):
+                start_expr = pos.right if norm(pos.left) == counter else pos.left     # insert(base + offset, ..), enumerate from 0
+            elif isinstance(pos, ast.Name):
+                start_expr = pos                                        # running local, advanced in the loop
+            else:
+                raise AnalysisError('Application.add: insertion position %s not understood' % short(pos, 40))
+            lv = [l for l in fl.leaves(start_expr, loop) if not (isinstance(l.stmt, ast.AST) and l.stmt in stmts_of(loop))]
+            try:
+                ok = bool(lv)
+                for l in lv:
+                    txt = fl.text(l.value, l.stmt) if isinstance(l.stmt, ast.AST) else norm(l.value)
+                    prem = pr.conds(l.conds)
+                    if not l.opaque and txt == idx:
+                        ok = ok and pr.implies(prem, given)
+                    elif not l.opaque and txt == 'len(self.routes)':
+                        ok = ok and pr.implies(prem, ('n', given))
+                    else:
+                        ok = False
+            except Unknown as e:
+                raise AnalysisError('Application.add: conditions of the insertion position not understood (%s)' % e)
+            return ok, lv, st
+        ad = app.func('Application.add')
+        fl = Flow(ad)
+        pr = Prop(fl)
+        idx = ad.params()[2] if len(ad.params()) > 2 else None
+        ins_all = [c for c in walk_body(ad.node) if isinstance(c, ast.Call) and norm(c.func) == 'self.routes.insert' and len(c.args) == 2]
+        if idx is None or not ins_all:
+            raise AnalysisError('Application.add: the index parameter / a self.routes.insert(position, route) call not found')
+        given = ('n', ('a', '%s is None' % idx))
+        ok, seen_leaves, st = True, [], None
+        for one in ins_all:
+            ok1, lv, st = position_of(ad, fl, pr, idx, one, given)
+            ok = ok and ok1
+            seen_leaves += lv
+        lv = seen_leaves
+        rep.check('R11.c', fkey(ad, 'requested index'), ok, 'the first new route goes to the given index (0 included), or to the end when none was given' if ok else
+                  'the insertion position is not "index if one was given, else len(self.routes)": %s' % [short(l.value, 40) for l in lv], app, st)
+    rep_guard(requested_index)
+    rep_guard(rep.floor, 'R11.c', 3)
 
     # ---- R11.d -----------------------------------------------------------
-    seen = set()
-    for m in repo.all_internal_modules():
-        if '.contrib' in m.name or m.name.endswith('cline') or '_werkzeug_serving' in m.name:
-            continue
-        mod_globals = set(m.assigns) | set(m.imports)
-        for fi in m.functions.values():
-            declared = set()
-            for n in walk_body(fi.node):
-                if isinstance(n, ast.Global):
-                    declared.update(n.names)
-            locals_ = set(fi.params())
-            for n in walk_body(fi.node):
-                if isinstance(n, ast.Name) and isinstance(n.ctx, ast.Store) and n.id not in declared:
-                    locals_.add(n.id)
-            # enclosing function locals (closures)
-            outer_locals = set()
-            parts = fi.qualname.split('.')
-            for i in range(1, len(parts)):
-                o = m.functions.get('.'.join(parts[:i]))
-                if o is not None:
-                    outer_locals |= set(o.params())
-                    for n in walk_body(o.node):
-                        if isinstance(n, ast.Name) and isinstance(n.ctx, ast.Store):
-                            outer_locals.add(n.id)
-            writes = []
-            for e in effects.effects_in(fi.node):
-                r = e.root
-                if r is None or r in locals_ or r in ('self', 'cls'):
-                    continue
-                if r in outer_locals and r not in declared:
-                    if (m.name, fi.qualname, r) in GLOBAL_WRITERS:
+    def r11d():
+        seen = set()
+        for m in repo.all_internal_modules():
+            if '.contrib' in m.name or m.name.endswith('cline') or '_werkzeug_serving' in m.name:
+                continue
+            mod_globals = set(m.assigns) | set(m.imports)
+            for fi in m.functions.values():
+                declared = set()
+                for n in walk_body(fi.node):
+                    if isinstance(n, ast.Global):
+                        declared.update(n.names)
+                locals_ = set(fi.params())
+                for n in walk_body(fi.node):
+                    if isinstance(n, ast.Name) and isinstance(n.ctx, ast.Store) and n.id not in declared:
+                        locals_.add(n.id)
+                # enclosing function locals (closures)
+                outer_locals = set()
+                parts = fi.qualname.split('.')
+                for i in range(1, len(parts)):
+                    o = m.functions.get('.'.join(parts[:i]))
+                    if o is not None:
+                        outer_locals |= set(o.params())
+                        for n in walk_body(o.node):
+                            if isinstance(n, ast.Name) and isinstance(n.ctx, ast.Store):
+                                outer_locals.add(n.id)
+                writes = []
+                for e in effects.effects_in(fi.node):
+                    r = e.root
+                    if r is None or r in locals_ or r in ('self', 'cls'):
+                        continue
+                    if r in outer_locals and r not in declared:
+                        if (m.name, fi.qualname, r) in GLOBAL_WRITERS:
+                            writes.append((r, e.node))
+                        continue
+                    if r in mod_globals or r in declared:
                         writes.append((r, e.node))
-                    continue
-                if r in mod_globals or r in declared:
-                    writes.append((r, e.node))
-            for n in walk_body(fi.node):
-                if isinstance(n, ast.Name) and isinstance(n.ctx, ast.Store) and n.id in declared:
-                    writes.append((n.id, n))
-            for g, node in writes:
-                k = (m.name, fi.qualname, g)
-                if k in seen:
-                    continue
-                seen.add(k)
-                ok = k in GLOBAL_WRITERS
-                rep.check('R11.d', 'global-writer::%s::%s::%s' % k, ok, 'inventoried: ' + GLOBAL_WRITERS.get(k, '') if ok else
-                          '%s writes module-level state %s, which is not in the inventory: applications in one process would '
-                          'share it' % (fi.key, g), m, node)
-    for modname, q in sorted(IMPORT_ONLY):
-        m = repo.mod(modname)
-        sites = []
-        for mm_ in repo.all_internal_modules():
-            for n in ast.walk(mm_.tree):
-                if isinstance(n, ast.Call) and call_name(n) == q:
-                    sites.append((mm_, n, mm_.enclosing_function(n)))
-        ok = bool(sites) and all(fn is None and mm_ is m for mm_, n, fn in sites)
-        rep.check('R11.d', '%s::%s called at import only' % (modname, q), ok, '%s runs at import time only' % q if ok else
-                  '%s (writes module-level tables) is called from a function: %s' % (q, [(mm_.relpath, n.lineno) for mm_, n, fn in sites if fn]), m)
-    cc = sinter.func('compile_code')
-    st_ = [s for s in stmts_of(cc.node) if isinstance(s, ast.Assign) and norm(s.targets[0]).startswith('linecache.cache[')]
-    ok = len(st_) == 1
-    if ok:
-        key = norm(st_[0].targets[0].slice)
-        ks = [s for s in stmts_of(cc.node) if isinstance(s, ast.Assign) and norm(s.targets[0]) == key]
-        hs = [s for s in stmts_of(cc.node) if isinstance(s, ast.Assign) and 'hashlib' in norm(s.value) and cc.params()[0] in norm(s.value)]
-        ok = len(ks) == 1 and len(hs) == 1 and norm(hs[0].targets[0]) in norm(ks[0].value)
-    rep.check('R11.d', fkey(cc, 'linecache key'), ok, 'the only process-wide cache entry is keyed by a hash of the generated text' if ok else
-              'linecache.cache key does not derive from a content hash of the generated code', sinter, cc.node)
-    adv = []
-    for m in repo.all_internal_modules():
-        for fi in m.functions.values():
-            for c in walk_body(fi.node):
-                if isinstance(c, ast.Call) and call_name(c) == 'next' and c.args and norm(c.args[0]) == '_REQ_ID_ITER':
-                    adv.append(fi.key)
-    ok = adv == ['clastic.application::Application._dispatch_wsgi']
-    rep.check('R11.d', 'clastic::_REQ_ID_ITER advanced', ok, 'the request-id counter is advanced in _dispatch_wsgi only' if ok else
-              'the request-id counter is advanced at %s' % adv, app)
-    dp = repo.mod('clastic.meta').func('MetaApplication.__init__')
-    s = [x for x in stmts_of(dp.node) if isinstance(x, ast.Assign) and norm(x.targets[0]) == 'self.peripherals']
-    ok = len(s) == 1 and isinstance(s[0].value, ast.Call) and call_name(s[0].value) == 'list'
-    rep.check('R11.d', fkey(dp, 'DEFAULT_PERIPHERALS copied'), ok, 'the shared default peripheral list is copied per MetaApplication' if ok else
-              'MetaApplication extends the shared DEFAULT_PERIPHERALS list in place', repo.mod('clastic.meta'), dp.node)
-    rep.floor('R11.d', 8)
+                for n in walk_body(fi.node):
+                    if isinstance(n, ast.Name) and isinstance(n.ctx, ast.Store) and n.id in declared:
+                        writes.append((n.id, n))
+                for g, node in writes:
+                    k = (m.name, fi.qualname, g)
+                    if k in seen:
+                        continue
+                    seen.add(k)
+                    ok = k in GLOBAL_WRITERS
+                    via = None
+                    if not ok:
+                        # a private helper reachable only from an inventoried writer of the same object writes on its behalf
+                        for (gm, gq, gg), why in GLOBAL_WRITERS.items():
+                            if gm == m.name and gg == g and fi.key in hc.closure({'%s::%s' % (gm, gq)}) and \
+                                    any(f2.key == '%s::%s' % (gm, gq) for f2 in m.functions.values()):
+                                ok, via = True, '%s (through its helper %s)' % (why, fi.qualname)
+                    rep.check('R11.d', 'global-writer::%s::%s::%s' % k, ok, 'inventoried: ' + (via or GLOBAL_WRITERS.get(k, '')) if ok else
+                              '%s writes module-level state %s, which is not in the inventory: applications in one process would '
+                              'share it' % (fi.key, g), m, node)
+        for modname, q in sorted(IMPORT_ONLY):
+            m = repo.mod(modname)
+            sites = []
+            for mm_ in repo.all_internal_modules():
+                for n in ast.walk(mm_.tree):
+                    if isinstance(n, ast.Call) and call_name(n) == q:
+                        sites.append((mm_, n, mm_.enclosing_function(n)))
+            ok = bool(sites) and all(fn is None and mm_ is m for mm_, n, fn in sites)
+            rep.check('R11.d', '%s::%s called at import only' % (modname, q), ok, '%s runs at import time only' % q if ok else
+                      '%s (writes module-level tables) is called from a function: %s' % (q, [(mm_.relpath, n.lineno) for mm_, n, fn in sites if fn]), m)
+        cc = sinter.func('compile_code')
+        cfl = Flow(cc)
+        st_ = [s for s in stmts_of(cc.node) if isinstance(s, ast.Assign) and norm(s.targets[0]).startswith('linecache.cache[')]
+
+        def from_source(e, at, depth=0):
+            """mentions the generated text, directly or through named temporaries"""
+            for n in ast.walk(e):
+                if isinstance(n, ast.Name) and isinstance(n.ctx, ast.Load):
+                    if n.id == cc.params()[0]:
+                        return True
+                    d = cfl.single_def(n.id, at) if depth < 6 else None
+                    if d is not None and from_source(d.value, d.stmt, depth + 1):
+                        return True
+            return False
+
+        def hashed(e, at, depth=0):
+            """the expression is built from a hashlib digest of the generated text (through named temporaries)"""
+            for n in ast.walk(e):
+                if isinstance(n, ast.Call) and norm(n.func).startswith('hashlib.') and any(from_source(a, at) for a in n.args):
+                    return True
+                if isinstance(n, ast.Name) and isinstance(n.ctx, ast.Load) and depth < 6:
+                    d = cfl.single_def(n.id, at)
+                    if d is not None and hashed(d.value, d.stmt, depth + 1):
+                        return True
+            return False
+        ok = len(st_) == 1 and hashed(st_[0].targets[0].slice, st_[0])
+        rep.check('R11.d', fkey(cc, 'linecache key'), ok, 'the only process-wide cache entry is keyed by a hash of the generated text' if ok else
+                  'linecache.cache key does not derive from a content hash of the generated code', sinter, cc.node)
+        # the request-id counter: advanced by _dispatch_wsgi, directly or through private helpers that nothing else
+        # refers to (helpers the front-end dissolved into _dispatch_wsgi are left behind unreferenced)
+        main = 'clastic.application::Application._dispatch_wsgi'
+        adv = []
+        for m in repo.all_internal_modules():
+            for fi in m.functions.values():
+                for c in walk_body(fi.node):
+                    if isinstance(c, ast.Call) and call_name(c) == 'next' and c.args and norm(c.args[0]) == '_REQ_ID_ITER':
+                        if fi not in adv:
+                            adv.append(fi)
+
+        accepted = hc.closure({main})
+        keys = [fi.key for fi in adv]
+        ok = bool(adv) and all(k in accepted for k in keys) and \
+            (main in keys or any(hc.referred_from(fi, main) for fi in adv))
+        rep.check('R11.d', 'clastic::_REQ_ID_ITER advanced', ok, 'the request-id counter is advanced in _dispatch_wsgi only' if ok else
+                  'the request-id counter is advanced at %s' % keys, app)
+        dp = repo.mod('clastic.meta').func('MetaApplication.__init__')
+        dfl = Flow(dp)
+        lv = dfl.leaves(ast.parse('self.peripherals', mode='eval').body, 'exit') if dfl.defs.get('self.peripherals') else []
+        ok = bool(lv) and all(fresh_container(dfl, dp, l, repo) for l in lv)
+        rep.check('R11.d', fkey(dp, 'DEFAULT_PERIPHERALS copied'), ok, 'the shared default peripheral list is copied per MetaApplication' if ok else
+                  'MetaApplication extends the shared DEFAULT_PERIPHERALS list in place', repo.mod('clastic.meta'), dp.node)
+    rep_guard(r11d)
+    rep_guard(rep.floor, 'R11.d', 8)
